@@ -243,10 +243,32 @@ func TestC30(t *testing.T) {
 		era := allEras[rapid.IntRange(0, len(allEras)-1).Draw(rt, "era")]
 		standalone := rapid.Bool().Draw(rt, "standalone")
 		path := map[bool]string{true: "standalone", false: "block"}[standalone]
-		c := genCase(rt, era, genOpts{MaxCerts: 2, Bystanders: true, FewAssets: true})
+		// phase-2-invalid transactions: is_valid=false in the envelope (standalone
+		// Alonzo..Conway) or membership in the block's invalid-transactions list
+		invalid := era >= Alonzo && !(era == Dijkstra && standalone) && rapid.IntRange(0, 4).Draw(rt, "invalid") == 0
+		o := genOpts{MaxCerts: 2, Bystanders: !invalid, FewAssets: true}
+		if invalid {
+			o.BeforeCoins = func(rt *rapid.T, c *Case) {
+				lang := 1
+				if era >= Conway {
+					lang = 3
+				}
+				c.Tx.Rdms = []Rdm{{Tag: 0, Index: 0, Mem: 1000, Steps: 1000}}
+				c.Tx.RdmMap = era >= Conway
+				c.Tx.Plutus = []PScript{{Lang: lang, Bytes: []byte{0x45, 1, 1, 0, 0x24, 0x99}}}
+				c.Tx.CostModels = c.P.CostModels
+				c.Tx.Coll = []In{{TxID: hash256([]byte("c30/coll")), Ix: 0, Key: payKeys[rapid.IntRange(0, 3).Draw(rt, "collKey")],
+					V: Val{Coin: 80_000_000}}}
+				c.Tx.Invalid = standalone
+			}
+		}
+		c := genCase(rt, era, o)
 		tx := c.Tx
 		if era == Dijkstra && !standalone {
 			tx.ThreeElems = true
+		}
+		if invalid {
+			rec.Class(fmt.Sprintf("%s:%s:phase2_invalid", era, path))
 		}
 		var styled string
 		c30Style(rt, tx, standalone, &styled)
@@ -264,7 +286,7 @@ func TestC30(t *testing.T) {
 			}
 			b.Dtx, b.Original, b.Four = dtx, e.Raw, e.FourElems
 		} else {
-			bt := BlockTx{Body: e.Body, Wits: e.Wits, Aux: e.Aux}
+			bt := BlockTx{Body: e.Body, Wits: e.Wits, Aux: e.Aux, Invalid: invalid}
 			if era == Dijkstra && rapid.IntRange(0, 2).Draw(rt, "outerForm") == 0 {
 				bt.OuterForm = []xcbor.Form{xcbor.FormW1, xcbor.FormW2, xcbor.FormW8, xcbor.FormIndef}[rapid.IntRange(0, 3).Draw(rt, "outerFormWhich")]
 				b.Styled += fmt.Sprintf("outer[%s]", bt.OuterForm)
@@ -293,6 +315,9 @@ func TestC30(t *testing.T) {
 				rt.Fatalf("harness: block has %d transactions, decoder reports %d", len(txs), len(got))
 			}
 			b.Dtx = got[b.Index]
+			if b.Dtx.IsValid() == invalid {
+				rt.Fatalf("harness: transaction %d listed invalid=%v, decoder reports IsValid=%v", b.Index, invalid, b.Dtx.IsValid())
+			}
 			b.Original = originalOf(era, bt)
 			b.Four = era >= Alonzo && era <= Conway
 		}
